@@ -157,8 +157,8 @@ def batch_row(row_term):
     return row_term.replace('ival(seeds, j)', 'ival(%s, j)' % SEEDS)
 
 
-def parallel_predict_contract(cls, row_term, extra_req=()):
-    fn('base_mab.BaseMAB._parallel_predict', cls=cls, props='C03 C05 C08 C09 C10',
+def parallel_predict_contract(cls, row_term, extra_req=(), trusted=False, note=''):
+    fn('base_mab.BaseMAB._parallel_predict', cls=cls, props='C03 C05 C08 C09 C10', trusted=trusted, note=note,
        params={'contexts': 'mat', 'is_predict': 'flag'},
        requires=['INV', 'not is_none(self.decisions)', 'slen(self.arms) > 0', 'cols(contexts) == cols(self.contexts)',
                  'rows(contexts) >= 1'] + list(extra_req),
